@@ -5,7 +5,7 @@ LEVEL = "proof"
 THEOREMS = ["C04_count_additive", "C04_small_primes_split", "C04_tiling_counts", "C04_segments_ok", "C04_segments_terminate", "C04_step_tables_ok", "C04_step_lift",
             "C04_cross_off_refines", "C04_kernel_segment", "C04_kernel_next_states", "C04_addSievingPrime_state", "C04_addSievingPrime_none",
             "C04_erat_kernel_correct", "C04_surviving_are_primes", "C04_kernel_run_example", "C04_presieve_tables_ok", "C04_primeBits_ok",
-            "C04_presieve_bit_spec", "C04_erat_kernel_presieved", "C04_presieved_segment_spec", "C04_kernel_run_ps_example", "C04_erat_model_spec", "C04_count_model_kernel", "C04_end_masks_ok", "C04_erat_self_spec"]
+            "C04_presieve_bit_spec", "C04_erat_kernel_presieved", "C04_presieved_segment_spec", "C04_kernel_run_ps_example", "C04_erat_model_spec", "C04_count_model_kernel", "C04_end_masks_ok", "C04_erat_self_spec", "C04_kernel_popcount_spec"]
 ASSUMPTIONS = [
     "erat_spec (the segmented sieve marks exactly the primes of [max(start,7), stop]) is the hypothesis under which the count equals the specification. Proved of the kernel: segment geometry, step tables, cross-off loop = specification, the per-segment theorem (bit set iff prime), state hand-over between segments, addSievingPrime's initial state. NOT proved: their assembly over the segment loop, SievingPrimes, presieve, EratMedium/EratBig bucket lists and SievingPrime bit packing, bit decoding, masking at the interval ends - exercised by the correspondence at segment seams, byte/bit edges, p*q boundaries, sieve arrays above 4 MiB, 7 sieve sizes, 1..16 threads, two dispatch builds, and by the cross-off unit comparison (XOFF)",
     "popcount (POPCNT instruction / Harley-Seal) is modelled as the number of set bits",
